@@ -126,3 +126,61 @@ func VerifC17_Sweeper() {
 	}
 	verifapi.Assert(false, "the scenario ends at the deadline")
 }
+
+// ---- (a'') packets handed over by the redial read pump do not alias each other ------------------
+//
+// A carrier delivers two packets before anybody reads; both must still be what the carrier
+// delivered when they are read later (each queued packet is a private copy).
+
+type verifTwoPacketCarrier struct {
+	reads  int
+	closed chan struct{}
+	done   bool
+}
+
+func (c *verifTwoPacketCarrier) ReadFrom(p []byte) (int, net.Addr, error) {
+	c.reads++
+	if c.reads <= 2 {
+		p[0], p[1] = byte(c.reads), byte(10*c.reads)
+		return 2, verifAddr{}, nil
+	}
+	<-c.closed
+	return 0, nil, verifErrCarrier
+}
+func (c *verifTwoPacketCarrier) WriteTo(p []byte, a net.Addr) (int, error) { return len(p), nil }
+func (c *verifTwoPacketCarrier) Close() error {
+	if !c.done {
+		c.done = true
+		close(c.closed)
+	}
+	return nil
+}
+func (c *verifTwoPacketCarrier) LocalAddr() net.Addr                { return verifAddr{} }
+func (c *verifTwoPacketCarrier) SetDeadline(t time.Time) error      { return nil }
+func (c *verifTwoPacketCarrier) SetReadDeadline(t time.Time) error  { return nil }
+func (c *verifTwoPacketCarrier) SetWriteDeadline(t time.Time) error { return nil }
+
+func VerifC17_RedialNoAlias() {
+	stop := make(chan struct{})
+	dials := 0
+	dial := func(ctx context.Context) (net.PacketConn, error) {
+		dials++
+		if dials == 1 {
+			return &verifTwoPacketCarrier{closed: make(chan struct{})}, nil
+		}
+		<-stop
+		return nil, verifErrCarrier
+	}
+	c := NewRedialPacketConn(verifAddr{}, verifAddr{}, dial)
+	verifapi.Quiesce() // both packets are queued, nobody has read yet
+	var buf [4]byte
+	for k := 1; k <= 2; k++ {
+		n, _, err := c.ReadFrom(buf[:])
+		verifapi.Assert(err == nil && n == 2, "a queued packet is read")
+		verifapi.Assert(buf[0] == byte(k) && buf[1] == byte(10*k), "a queued packet still has the bytes the carrier delivered: packets handed over earlier are not overwritten by later reads")
+	}
+	verifapi.Cover("two queued packets read")
+	c.Close()
+	close(stop)
+	verifapi.Quiesce()
+}
